@@ -65,7 +65,7 @@ RELEVANT_PROBES = {
 QUICK_WALL_CAP = 60.0       # seconds of run time per flavour before no new chunk is handed out
 THOROUGH_WALL_CAP = 600.0
 MAX_CLASSES = 3             # distinct violation classes minimised and reported per check
-MINIMISE_BUDGET = 260       # replays per violation
+MINIMISE_BUDGET = 400       # replays per violation
 WORKERS = min(16, os.cpu_count() or 4)
 
 
@@ -273,7 +273,8 @@ def minimise(binary, pf, target, tag, valgrind=False):
         def drop(p, t=t):
             del p["progs"][t]
             if p["sched"].get("script"):
-                p["sched"]["script"] = [e for e in p["sched"]["script"] if e[0] != t and e[3] != t]
+                p["sched"]["script"] = [[e[0] - (e[0] > t), e[1], e[2], e[3] - (e[3] > t), e[4]]
+                                        for e in p["sched"]["script"] if e[0] != t and e[3] != t]
         try_mod(drop)
         t -= 1
     # 4. explicit schedule for schedule-dependent violations
@@ -284,23 +285,51 @@ def minimise(binary, pf, target, tag, valgrind=False):
                 p["sched"]["policy"] = 4
                 p["sched"]["script"] = sw
             try_mod(script)
-    # 5. operations of each program and of the setup
+    # 4b. switches of an explicit schedule first: few switches make the programs shrink well
+    def shrink_script():
+        if pf["plan"]["sched"].get("policy") == 4 and pf["plan"]["sched"].get("script"):
+            def test_sw(cand):
+                return holds(with_plan(lambda p: p["sched"].__setitem__("script", cand)))
+            pf["plan"]["sched"]["script"] = ddmin(list(pf["plan"]["sched"]["script"]), test_sw, budget)
+    shrink_script()
+    # 5. operations of each program and of the setup; an explicit schedule is
+    # kept aligned: entries of removed operations go, later ones are renumbered
     for which in list(range(len(pf["plan"]["progs"]))) + ["setup"]:
-        def get(p):
-            return p["setup"] if which == "setup" else p["progs"][which]
+        orig = list(pf["plan"]["setup"] if which == "setup" else pf["plan"]["progs"][which])
+        orig_script = list(pf["plan"]["sched"].get("script") or [])
 
-        def test(cand):
+        def build(keep, which=which, orig=orig, orig_script=orig_script):
             def put(p):
+                ops = [orig[i] for i in keep]
                 if which == "setup":
-                    p["setup"] = cand
-                else:
-                    p["progs"][which] = cand
-            return holds(with_plan(put))
-        ops = ddmin(list(get(pf["plan"])), test, budget)
-        if which == "setup":
-            pf["plan"]["setup"] = ops
-        else:
-            pf["plan"]["progs"][which] = ops
+                    p["setup"] = ops
+                    return
+                p["progs"][which] = ops
+                if p["sched"].get("policy") == 4:
+                    remap = {old: new for new, old in enumerate(keep)}
+                    remap[len(orig)] = len(keep)
+                    out = []
+                    for e in orig_script:
+                        if e[0] != which:
+                            out.append(e)
+                        elif e[1] in remap:
+                            out.append([e[0], remap[e[1]], e[2], e[3], e[4]])
+                    p["sched"]["script"] = out
+            return with_plan(put)
+
+        keep = ddmin(list(range(len(orig))), lambda cand: holds(build(cand)), budget)
+        pf = build(keep)
+    # 5b. tasks whose program became empty
+    t = len(pf["plan"]["progs"]) - 1
+    while t >= 0 and len(pf["plan"]["progs"]) > 1 and budget[0] > 0:
+        if not pf["plan"]["progs"][t]:
+            def drop2(p, t=t):
+                del p["progs"][t]
+                if p["sched"].get("script"):
+                    p["sched"]["script"] = [[e[0] - (e[0] > t), e[1], e[2], e[3] - (e[3] > t), e[4]]
+                                            for e in p["sched"]["script"] if e[0] != t and e[3] != t]
+            try_mod(drop2)
+        t -= 1
     # 6. faults
     for prog in pf["plan"]["progs"]:
         for idx, op in enumerate(prog):
@@ -310,11 +339,8 @@ def minimise(binary, pf, target, tag, valgrind=False):
                 budget[0] -= 1
                 if not holds(pf):
                     op["f"] = saved
-    # 7. switches of an explicit schedule
-    if pf["plan"]["sched"].get("policy") == 4 and pf["plan"]["sched"].get("script"):
-        def test(cand):
-            return holds(with_plan(lambda p: p["sched"].__setitem__("script", cand)))
-        pf["plan"]["sched"]["script"] = ddmin(list(pf["plan"]["sched"]["script"]), test, budget)
+    # 7. switches of an explicit schedule once more
+    shrink_script()
     # 8. smaller grid
     for gn in (3, 4, 5):
         if pf["plan"].get("gn", 9) > gn and try_mod(lambda p, gn=gn: p.__setitem__("gn", gn)):
